@@ -18,7 +18,13 @@ import (
 	"time"
 
 	"github.com/scionproto/scion/pkg/addr"
+	"github.com/scionproto/scion/pkg/snet"
+	snetpath "github.com/scionproto/scion/pkg/snet/path"
 	"pgregory.net/rapid"
+
+	"example.com/scion-time/core/client"
+	"example.com/scion-time/core/timebase"
+	"example.com/scion-time/driver/clocks"
 
 	"example.com/scion-time/net/ntske"
 	"example.com/scion-time/net/scion"
@@ -73,6 +79,7 @@ func stream(s kscript) ([]byte, [][]byte) {
 }
 
 func TestMain(m *testing.M) {
+	timebase.RegisterClock(clocks.NewSystemClock(slog.New(slog.NewTextHandler(io.Discard, nil)), clocks.UnknownDrift))
 	cert, err := netlab.SelfSigned()
 	if err != nil {
 		fmt.Println("VERIF-INCONCLUSIVE: certificate:", err)
@@ -193,6 +200,46 @@ func TestPropQUICHistories(t *testing.T) {
 			}
 			prevNamed = prevNamed || s.Server != "" || s.Port != 0 || s.AEAD == 15
 			rec.Eval(nt, ev.Hash(fmt.Sprint(hist)), func() any { return hist }, "exchange-succeeded")
+		}
+	})
+}
+
+var recKE = ev.New("c20/scion-client-reexchange", "rapid: a real SCIONClient with NTS, configured as the service configures it (the key-exchange address of the fetcher and the measurement's remote address are the same value), exchanges keys over QUIC/SCION with the scripted server, which names an NTP server and port of its choice and issues 1..2 cookies; the NTP requests go unanswered. After the cookies are used up the next measurement must exchange keys again with the configured key-exchange server. Oracle: one connection at the scripted server per exchange needed; the configured addresses are unchanged. One evaluation = one measurement call. Non-trivial: a call that needs the second exchange")
+
+func TestPropSCIONClientReexchange(t *testing.T) {
+	vt.Check(t, 6, 40, func(t *rapid.T) {
+		s := kscript{Server: rapid.SampledFrom([]string{netlab.Addr(2).String(), netlab.Addr(3).String()}).Draw(t, "server"),
+			Port: rapid.SampledFrom([]int{5555, 10123}).Draw(t, "port"), AEAD: 15, NCookies: rapid.IntRange(1, 2).Draw(t, "cookies"), End: true}
+		mu.Lock()
+		cur = s
+		c0 := nconn
+		mu.Unlock()
+		local := udp.UDPAddr{IA: ia, Host: &net.UDPAddr{IP: netlab.Addr(1).AsSlice()}}
+		remote := udp.UDPAddr{IA: ia, Host: &net.UDPAddr{IP: append(net.IP(nil), srvAddr.Host.IP...), Port: srvAddr.Host.Port}}
+		c := &client.SCIONClient{Log: slog.New(slog.NewTextHandler(io.Discard, nil))}
+		c.Auth.NTSEnabled = true
+		c.Auth.NTSKEFetcher.TLSConfig = tls.Config{NextProtos: []string{"ntske/1"}, InsecureSkipVerify: true, MinVersion: tls.VersionTLS13}
+		c.Auth.NTSKEFetcher.Log = c.Log
+		c.Auth.NTSKEFetcher.QUIC.Enabled = true
+		c.Auth.NTSKEFetcher.QUIC.LocalAddr = local
+		c.Auth.NTSKEFetcher.QUIC.RemoteAddr = remote
+		sp := snetpath.Path{Src: ia, Dst: ia, DataplanePath: snetpath.Empty{}, NextHop: remote.Host}
+		for call := 0; call < s.NCookies+1; call++ {
+			ctx, cancel := context.WithTimeout(context.Background(), 150*time.Millisecond)
+			client.MeasureClockOffsetSCION(ctx, c.Log, []*client.SCIONClient{c}, local, remote, []snet.Path{sp})
+			cancel()
+			time.Sleep(2 * time.Millisecond)
+			mu.Lock()
+			opened := nconn - c0
+			mu.Unlock()
+			want := 1
+			if call == s.NCookies {
+				want = 2 // the pool is empty: a complete new exchange, with the configured key-exchange server
+			}
+			if opened != want {
+				t.Fatalf("measurement %d (cookies issued %d): the scripted key-exchange server has seen %d connections, expected %d; the fetcher's key-exchange address is now %v (configured %v)", call+1, s.NCookies, opened, want, c.Auth.NTSKEFetcher.QUIC.RemoteAddr.Host, srvAddr.Host)
+			}
+			recKE.Eval(call == s.NCookies, ev.Hash(s.Server, s.Port, s.NCookies, call), func() any { return map[string]any{"script": s, "call": call + 1} })
 		}
 	})
 }
